@@ -144,7 +144,9 @@ impl<T: Neg> Neg for IntOfLog<T> {
 impl<T: Evaluate> Evaluate for IntOfLog<T> {
     #[inline]
     fn evaluate(&self, v: f64) -> f64 {
-        self.k + self.poly.evaluate(v.ln())
+        // ∫ p(ln t) dt = t·q(ln t) + k, where `poly` holds q (see the
+        // `HasIntegral` impls for `Log<_>` below, and `IntOfLogPoly4`).
+        v.mul_add(self.poly.evaluate(v.ln()), self.k)
     }
 }
 
